@@ -2,6 +2,7 @@
 real parser (html.parser through BeautifulSoup) with the Lean models BS.Entities / BS.Reader, plus the direct oracle:
 no raw angle brackets, and the real parser reads text and attribute value back as the original string."""
 import html as _html
+import html.entities
 import html.parser as _hp
 import itertools, json, multiprocessing, os, re, subprocess, sys
 from concurrent.futures import ThreadPoolExecutor
@@ -95,8 +96,10 @@ def classify_html5_text(o):
     bails = 0
     for i in bare_ampersands(o):
         if doc.startswith("&#", i):
-            if _hp.charref.match(doc, i):
-                kinds.add(KF_NUMERIC)
+            m = _hp.charref.match(doc, i)
+            if m:
+                if not m.group().endswith(";"):
+                    kinds.add(KF_NUMERIC)
             elif bails == 0 and ";" in o[i:]:
                 bails = 1  # feed() hands "&#" to handle_data and stops; close() resumes after it
             else:
@@ -105,9 +108,10 @@ def classify_html5_text(o):
         else:
             m = _hp.entityref.match(doc, i)
             if m:
-                if m.group(1) in E.HTML_ENTITY_TO_CHARACTER:
+                known = m.group(1) in E.HTML_ENTITY_TO_CHARACTER
+                if known and not m.group().endswith(";"):
                     kinds.add(KF_LEGACY)
-                elif m.group().endswith(";"):
+                elif not known and m.group().endswith(";"):
                     kinds.add(KF_SEMI)
     return kinds
 
@@ -116,8 +120,15 @@ def classify_html5_attr(o):
     kinds = set()
     for i in bare_ampersands(o):
         m = _html._charref.match(o, i)
-        if m and _html.unescape(m.group(0)) != m.group(0):
-            kinds.add(KF_NUMERIC if m.group(1).startswith("#") else KF_LEGACY)
+        if not m or _html.unescape(m.group(0)) == m.group(0):
+            continue
+        body = m.group(1)
+        if body.startswith("#"):
+            if not body.endswith(";"):
+                kinds.add(KF_NUMERIC)
+        elif not (body.endswith(";") and body in _html.entities.html5):
+            # a semicolon-less legacy name, possibly only a prefix of the run ('&quot-;' -> '"-;')
+            kinds.add(KF_LEGACY)
     return kinds
 
 
@@ -142,8 +153,15 @@ def real_case(s):
     for regname, reg in (("HTMLFormatter", HTMLFormatter.REGISTRY), ("XMLFormatter", XMLFormatter.REGISTRY)):
         for k, f in reg.items():
             if k in fn and (f.substitute(s) != fn[k] or f.attribute_value(s) != fn[k]):
-                fails.append(dict(what=f"{regname}.REGISTRY[{k!r}].substitute/attribute_value differs from its documented function",
-                                  kind="formatter", kf=None, observed=tok(f.substitute(s)), expected=tok(fn[k])))
+                what = f"{regname}.REGISTRY[{k!r}].substitute/attribute_value differs from its documented function"
+                obs, exp = tok(f.substitute(s)), tok(fn[k])
+                if k in ("minimal", "html", "html5-4.12"):
+                    # the property itself, through this formatter
+                    t, a = parse_back(f.substitute(s), E.quoted_attribute_value(f.attribute_value(s)))
+                    if t != s or a != s:
+                        what = f"text/attribute written with {regname}.REGISTRY[{k!r}] is read back differently"
+                        obs, exp = show_text(t) + " / " + show(a), tok(s)
+                fails.append(dict(what=what, kind="formatter", kf=None, observed=obs, expected=exp))
     for name, o in (("xml", xml), ("html", html), ("html5", html5)):
         q = E.quoted_attribute_value(o)
         t, a = parse_back(o, q)
@@ -338,7 +356,7 @@ def run(ctx: Ctx):
     ctx.assumptions = ["text is read back inside <pre> so that bs4's collapsing of whitespace-only strings (builder policy) does not interfere",
                        "the document tail after the text (`</pre>`) holds no ';' (the tokenizer's `&#` bail looks there)",
                        "no decimal character reference of more than 4300 digits (C06's ValueError)",
-                       "the canonical (sorted) order of the regex alternation stands for every order: theorem order_irrelevant + a run under three PYTHONHASHSEED values"]
+                       "the canonical (sorted) order of the regex alternation stands for every order: theorem order_irrelevant + runs of the real code under eight PYTHONHASHSEED values"]
     import bs4
     ctx.notes.append(f"bs4 under test: {bs4.__file__}")
     streams = []
@@ -407,7 +425,9 @@ def run(ctx: Ctx):
     # --- Formatter.substitute on a NavigableString inside a cdata-containing tag, and the dictionaries themselves
     formatter_and_dict_checks(ctx, drv)
     # --- the order of the alternation (hash seed)
-    digests = {seed: hash_seed_digest(seed) for seed in (0, 1, 12345)}
+    seeds = (0, 1, 2, 3, 5, 8, 13, 12345)
+    with ThreadPoolExecutor(max_workers=8) as ex:
+        digests = dict(zip(seeds, ex.map(hash_seed_digest, seeds)))
     ctx.extra["hash_seed_digests"] = digests
     if len(set(digests.values())) != 1 or any(d.startswith("error") for d in digests.values()):
         ctx.violation("substitute_html/substitute_html5 depend on PYTHONHASHSEED (order of the regex alternation)",
@@ -466,7 +486,7 @@ def replay(path):
             print("  PROPERTY FAILS:", f["what"], "| expected", f.get("expected"), "observed", f.get("observed"), "| known-finding class:", f.get("kf"))
         return 1 if fails else 0
     if c.get("op") == "hashseed":
-        d = {seed: hash_seed_digest(seed) for seed in (0, 1, 12345)}
+        d = {seed: hash_seed_digest(seed) for seed in (0, 1, 2, 3, 5, 8, 13, 12345)}
         print(d)
         return 0 if len(set(d.values())) == 1 else 1
     print(json.dumps(v, indent=1))
